@@ -10,7 +10,7 @@ KEYS = """rho0 press eps rho enthalpy w_lorentz velx vely velz velup3 velup4 vel
  uup0 uup3 uup4 udown4 udown3 hdown4 hdet hmixed4 hup4 Tdown4 Tup4 Ttrace rho_n fluxup3_n
  fluxdown3_n angmomup3_n angmomdown3_n Stressup3_n Stressdown3_n Stresstrace_n press_n
  anisotropic_press_down3_n conserved_D conserved_E conserved_Sdown4 conserved_Sdown3
- conserved_Sup4 conserved_Sup3 nup4 ndown4""".split()
+ conserved_Sup4 conserved_Sup3 nup4 ndown4 st_Ricci_down4 st_Ricci_down3""".split()
 
 
 def run(rep):
